@@ -129,6 +129,20 @@ def new_obj(path, cls, fields=None):
     return o
 
 
+def ctor_defaults(cls, *args, **kw):
+    """primitive-valued attributes of a really constructed instance: a symbolic state that overrides only the
+    fields of its invariant then still has every other attribute __init__ creates (caches, flags, names)"""
+    try:
+        inst = cls(*args, **kw)
+    except Exception:
+        return {}
+    out = {}
+    for k, v in vars(inst).items():
+        if v is None or isinstance(v, (bool, int, float, str)):
+            out[k] = v
+    return out
+
+
 class Path:
     def __init__(self):
         self.pc = []
